@@ -100,8 +100,20 @@ class CoefficientCollector(Mapper):
     def map_constant(self, expr):
         return {1: expr}
 
-    def map_algebraic_leaf(self, expr):
+    def map_variable(self, expr):
         if self.target_names is None or expr.name in self.target_names:
+            return {expr: 1}
+        else:
+            return {1: expr}
+
+    def map_algebraic_leaf(self, expr):
+        # subscripts, calls, lookups: a target if they depend on a target name
+        if self.target_names is None:
+            return {expr: 1}
+
+        from pymbolic.mapper.dependency import DependencyMapper
+        deps = DependencyMapper(composite_leaves=False)(expr)
+        if any(dep.name in self.target_names for dep in deps):
             return {expr: 1}
         else:
             return {1: expr}
